@@ -847,6 +847,8 @@ def units(tier, seed):
     for variant in ('lu', 'lu2', 'lu_factor'):
         add('%s/2x2/D%d,P2' % (variant, Dq), 'h_lu', n=2, D=Dq, P=2, variant=variant)
         add('%s/3x3/D%d,P1' % (variant, 3 if tier != 'quick' else 2), 'h_lu', n=3, D=3 if tier != 'quick' else 2, P=1, variant=variant)
+        # the order-d residual is a convolution over 1..d-1: order 3 is the first with two different terms
+        add('%s/2x2/D%d,P1' % (variant, 4 if tier == 'quick' else 6), 'h_lu', n=2, D=4 if tier == 'quick' else 6, P=1, variant=variant)
     for sigma in (1, -1):
         add('eigh/2x2/D%d,P1,sigma%d' % (Dq, sigma), 'h_eigh', n=2, D=Dq, P=1, sigma=sigma)
     add('eigh/2x2/D3,P2', 'h_eigh', n=2, D=3, P=2)
